@@ -716,13 +716,13 @@ class SymEnv:
     def const(self, v, flavor='py'):
         return Sym(lift(v), flavor)
 
-    def uf(self, name, arity, int_args=()):
-        """uninterpreted real-valued function of `arity` numeric arguments"""
-        key = (name, arity, tuple(int_args))
+    def uf(self, name, arity, int_args=(), int_result=False):
+        """uninterpreted real-valued (or integer-valued) function of `arity` numeric arguments"""
+        key = (name, arity, tuple(int_args), int_result)
         f = self._uf_cache.get(key)
         if f is None:
             sorts = [z3.IntSort() if i in int_args else z3.RealSort() for i in range(arity)]
-            f = z3.Function(name, *sorts, z3.RealSort())
+            f = z3.Function(name, *sorts, z3.IntSort() if int_result else z3.RealSort())
             self._uf_cache[key] = f
         int_set = set(int_args)
 
@@ -1061,22 +1061,22 @@ class ConcEnv:
     def const(self, v, flavor='py'):
         return self._conv(v, flavor) if not isinstance(v, int) or flavor == 'np' else v
 
-    def uf(self, name, arity, int_args=()):
+    def uf(self, name, arity, int_args=(), int_result=False):
         int_set = set(int_args)
-        key = (name, arity, tuple(int_args))
+        key = (name, arity, tuple(int_args), int_result)
         f = None
         if self.model is not None:
             f = self._uf_cache.get(key)
             if f is None:
                 sorts = [z3.IntSort() if i in int_set else z3.RealSort() for i in range(arity)]
-                f = z3.Function(name, *sorts, z3.RealSort())
+                f = z3.Function(name, *sorts, z3.IntSort() if int_result else z3.RealSort())
                 self._uf_cache[key] = f
         tab = self.table['ufs'].setdefault(name, {})
 
         def call(*args, flavor='py'):
             k = '|'.join(_key_num(a) for a in args)
             if k in tab:
-                return self._conv(Fraction(tab[k]), flavor)
+                return int(Fraction(tab[k])) if int_result else self._conv(Fraction(tab[k]), flavor)
             if f is None:
                 v = Fraction(0)
             else:
@@ -1087,7 +1087,7 @@ class ConcEnv:
                 v = z3_value_to_py(self.model.eval(f(*zargs), model_completion=True))
                 v = Fraction(v) if not isinstance(v, float) else Fraction(v).limit_denominator(10 ** 12)
             tab[k] = str(v)
-            return self._conv(v, flavor)
+            return int(v) if int_result else self._conv(v, flavor)
         return call
 
     # control -----------------------------------------------------------------------------
